@@ -195,7 +195,7 @@ bn_denorm(const bn_p x) {
 
 /* ------------------------------------------------------------------ value sets */
 typedef struct { int kind; size_t n; R *arr; } vset_t;	/* kind 0: 0..n-1, kind 1: table */
-static vset_t VS_EX1, VS_EX2, VS_A2, VS_A3, VS_R4, VS_D, VS_DX;
+static vset_t VS_EX1, VS_EX2, VS_A2, VS_A3, VS_R4, VS_D, VS_DX, VS_BB;
 
 static void
 vs_get(const vset_t *s, size_t i, R *v) {
@@ -280,6 +280,25 @@ vs_reduced4(vset_t *s) {
 	}
 	s->n = n;
 }
+/* byte-boundary values for import/export: top digit 2^(8k)-1, 2^(8k), 2^(8k+1)-1, 2^(8k+1) for every byte
+ * position k inside a digit, alone and above one lower digit (0 or MAX) */
+static void
+vs_bytebound(vset_t *s) {
+	size_t n = 0; int k, v, lowsel; R one, top, low, t;
+	s->kind = 1; s->arr = (R *)calloc(4 * 3 * (DSZ ? DSZ : 1) + 4, sizeof(R));
+	r_set_u64(&one, 1);
+	for (k = 1; k < (int)DSZ; k ++) for (v = 0; v < 4; v ++) {
+		r_shl(&top, &one, 8 * k + (v >= 2));
+		if (0 == (v & 1)) r_sub(&top, &top, &one);
+		for (lowsel = 0; lowsel < 3; lowsel ++) {
+			if (0 == lowsel) { s->arr[n ++] = top; continue; }
+			alpha_digit((1 == lowsel) ? 0 : 6, &low);
+			r_shl(&t, &top, W); r_add(&t, &t, &low);
+			s->arr[n ++] = t;
+		}
+	}
+	s->n = n;
+}
 static void
 vsets_init(void) {
 	VS_EX1.kind = 0; VS_EX1.n = 256;
@@ -287,6 +306,7 @@ vsets_init(void) {
 	vs_alpha(&VS_A2, 2);
 	vs_alpha(&VS_A3, 3);
 	vs_reduced4(&VS_R4);
+	vs_bytebound(&VS_BB);
 	vs_digits(&VS_D, 0);
 	vs_digits(&VS_DX, 1);
 }
@@ -343,6 +363,7 @@ vs_name(const vset_t *s) {
 	if (s == &VS_A2) return ("alphabet<=2 digits");
 	if (s == &VS_A3) return ("alphabet<=3 digits");
 	if (s == &VS_R4) return ("reduced alphabet, 4 digits");
+	if (s == &VS_BB) return ("byte-boundary values");
 	return ("digits");
 }
 
